@@ -7,6 +7,7 @@ def run(ck):
     rc.run_property(ck, "mask_C02", rc.oracle_C02, fixed=rc.FIXED_HISTORIES)
     ck.run_fixed({"inject_across_short_lived_contexts": "C02:resource-of-a-dead-context",
                   "lookup_paths_agree_inside_a_component": "C02:lookup-paths-disagree",
+                  "generic_alias_types_are_found_by_every_lookup": "C02:lookup-paths-disagree",
                   "leaving_a_context_with_an_explicit_parent": "C02:added-elsewhere",
                   "failing_factory_leaves_the_current_context_alone": "C02:added-elsewhere"})
 
